@@ -36,22 +36,72 @@ pub fn build(pat: &str, limit: &str, casei: bool) -> Result<Regex, fancy_regex::
     b.build()
 }
 
-fn probe(re: &Regex, text: &str, p: &str) -> String {
+fn probe(re: &Regex, pat: &str, dflt: bool, text: &str, p: &str) -> String {
     let parts: Vec<&str> = p.split(':').collect();
     match parts[0] {
-        "is_match" => match re.is_match(text) {
-            Ok(b) => (b as u8).to_string(),
-            Err(e) => format!("ERR:{}", error_kind(&e)),
-        },
+        "is_match" => {
+            // the convenience constructors and accessors must agree with Regex::new (C09)
+            let mut w = String::new();
+            if re.as_str() != pat || format!("{}", re) != pat {
+                w = "!WRAPPER:as_str/Display".into();
+            }
+            if dflt {
+                use std::convert::TryFrom;
+                use std::str::FromStr;
+                let a = Regex::from_str(pat);
+                let b = Regex::try_from(pat);
+                let c = Regex::try_from(pat.to_string());
+                for (name, r) in [("from_str", a), ("try_from(&str)", b), ("try_from(String)", c)] {
+                    match r {
+                        Ok(r2) => {
+                            let same = r2.as_str() == pat
+                                && r2.captures_len() == re.captures_len()
+                                && fancy_regex::verif_hooks::is_fancy(&r2) == fancy_regex::verif_hooks::is_fancy(re)
+                                && match (r2.is_match(text), re.is_match(text)) {
+                                    (Ok(x), Ok(y)) => x == y,
+                                    (Err(_), Err(_)) => true,
+                                    _ => false,
+                                };
+                            if !same {
+                                w = format!("!WRAPPER:{}", name);
+                            }
+                        }
+                        Err(_) => w = format!("!WRAPPER:{} fails", name),
+                    }
+                }
+            }
+            match re.is_match(text) {
+                Ok(b) => format!("{}{}", b as u8, w),
+                Err(e) => format!("ERR:{}{}", error_kind(&e), w),
+            }
+        }
         "find" => {
             let pos: usize = parts[1].parse().unwrap();
+            let mut w = String::new();
+            if pos == 0 {
+                // find(t) is find_from_pos(t, 0)
+                let same = match (re.find(text), re.find_from_pos(text, 0)) {
+                    (Ok(a), Ok(b)) => a == b,
+                    (Err(a), Err(b)) => error_kind(&a) == error_kind(&b),
+                    _ => false,
+                };
+                if !same {
+                    w = "!WRAPPER:find".into();
+                }
+            }
             match re.find_from_pos(text, pos) {
                 Ok(Some(m)) => {
-                    let _ = m.as_str();
-                    span(m.start(), m.end())
+                    let r: std::ops::Range<usize> = m.into();
+                    let st: &str = m.into();
+                    if m.range() != (m.start()..m.end()) || r != m.range() || st != m.as_str()
+                        || format!("{}", m.as_str()) != &text[m.start()..m.end()]
+                    {
+                        w = "!WRAPPER:Match::range/From".into();
+                    }
+                    format!("{}{}", span(m.start(), m.end()), w)
                 }
-                Ok(None) => "none".into(),
-                Err(e) => format!("ERR:{}", error_kind(&e)),
+                Ok(None) => format!("none{}", w),
+                Err(e) => format!("ERR:{}{}", error_kind(&e), w),
             }
         }
         "caps" => {
@@ -73,15 +123,50 @@ fn probe(re: &Regex, text: &str, p: &str) -> String {
                             ok &= c.name(n) == c.get(i);
                         }
                     }
-                    format!("{}{}", caps_str(&c), if ok { "" } else { "!INCONSISTENT" })
+                    // Index impls, and captures(t) = captures_from_pos(t, 0)
+                    let mut w = String::new();
+                    for i in 0..c.len() {
+                        if let Some(m) = c.get(i) {
+                            if &c[i] != m.as_str() {
+                                w = "!WRAPPER:Captures[i]".into();
+                            }
+                        }
+                    }
+                    for n in re.capture_names().flatten() {
+                        if let Some(m) = c.name(n) {
+                            if &c[n] != m.as_str() {
+                                w = "!WRAPPER:Captures[name]".into();
+                            }
+                        }
+                    }
+                    if pos == 0 {
+                        match re.captures(text) {
+                            Ok(Some(c2)) => {
+                                if caps_str(&c2) != caps_str(&c) {
+                                    w = "!WRAPPER:captures".into();
+                                }
+                            }
+                            _ => w = "!WRAPPER:captures".into(),
+                        }
+                    }
+                    format!("{}{}{}", caps_str(&c), if ok { "" } else { "!INCONSISTENT" }, w)
                 }
-                Ok(None) => "none".into(),
+                Ok(None) => {
+                    if pos == 0 && !matches!(re.captures(text), Ok(None)) {
+                        "none!WRAPPER:captures".into()
+                    } else {
+                        "none".into()
+                    }
+                }
                 Err(e) => format!("ERR:{}", error_kind(&e)),
             }
         }
         "find_iter" => {
             let mut v = Vec::new();
             let mut it = re.find_iter(text);
+            if it.text() != text || it.regex().as_str() != re.as_str() {
+                v.push("!WRAPPER:Matches::text/regex".to_string());
+            }
             let mut after_err = 0;
             let mut n = 0;
             while let Some(x) = it.next() {
@@ -116,6 +201,12 @@ fn probe(re: &Regex, text: &str, p: &str) -> String {
         "caps_iter" => {
             let mut v = Vec::new();
             let mut n = 0;
+            {
+                let it = re.captures_iter(text);
+                if it.text() != text || it.regex().as_str() != re.as_str() {
+                    v.push("!WRAPPER:CaptureMatches::text/regex".to_string());
+                }
+            }
             for x in re.captures_iter(text) {
                 n += 1;
                 if n > text.len() + 5 {
@@ -140,6 +231,15 @@ fn probe(re: &Regex, text: &str, p: &str) -> String {
                 Box::new(re.splitn(text, parts[1].parse().unwrap()))
             };
             let mut n = 0;
+            if parts[0] == "splitn" {
+                // size_hint's upper bound must cover what the iterator yields
+                let it = re.splitn(text, parts[1].parse().unwrap());
+                let (lo, hi) = it.size_hint();
+                let cnt = it.take(text.len() + 6).count();
+                if lo > cnt || hi.map_or(false, |h| h < cnt) {
+                    v.push("!WRAPPER:SplitN::size_hint".to_string());
+                }
+            }
             for x in items {
                 n += 1;
                 if n > text.len() + 5 {
@@ -170,9 +270,71 @@ fn probe(re: &Regex, text: &str, p: &str) -> String {
                 }),
                 _ => panic!("bad replacer"),
             };
+            // the unwrapping wrappers and every Replacer impl of a string type give the same text
+            let mut w = String::new();
+            if let Ok(x) = &r {
+                let x: &str = x;
+                let mut chk = |name: &str, y: Cow<str>| {
+                    if y != x {
+                        w = format!("!WRAPPER:{}", name);
+                    }
+                };
+                match parts[2] {
+                    "T" => {
+                        chk("replacen(&str)", re.replacen(text, limit, arg.as_str()));
+                        chk("replacen(String)", re.replacen(text, limit, arg.clone()));
+                        chk("replacen(&String)", re.replacen(text, limit, &arg));
+                        let cow: Cow<str> = Cow::Borrowed(arg.as_str());
+                        chk("replacen(&Cow)", re.replacen(text, limit, &cow));
+                        chk("replacen(Cow)", re.replacen(text, limit, cow));
+                        let mut rp = arg.as_str();
+                        chk("replacen(by_ref)", re.replacen(text, limit, fancy_regex::Replacer::by_ref(&mut rp)));
+                        if limit == 1 {
+                            chk("replace", re.replace(text, arg.as_str()));
+                        }
+                        if limit == 0 {
+                            chk("replace_all", re.replace_all(text, arg.as_str()));
+                        }
+                    }
+                    "N" => {
+                        chk("replacen(NoExpand)", re.replacen(text, limit, NoExpand(&arg)));
+                        let mut rp = NoExpand(&arg);
+                        chk("replacen(NoExpand by_ref)", re.replacen(text, limit, fancy_regex::Replacer::by_ref(&mut rp)));
+                        // NoExpand's own replace_append (bypassed by the no_expansion fast path)
+                        let mut slow = String::new();
+                        let mut last = 0;
+                        let mut okc = true;
+                        for (i, c) in re.captures_iter(text).enumerate() {
+                            if limit > 0 && i >= limit {
+                                break;
+                            }
+                            match c {
+                                Ok(c) => {
+                                    let m = c.get(0).unwrap();
+                                    slow.push_str(&text[last..m.start()]);
+                                    fancy_regex::Replacer::replace_append(&mut NoExpand(&arg), &c, &mut slow);
+                                    last = m.end();
+                                }
+                                Err(_) => okc = false,
+                            }
+                        }
+                        slow.push_str(&text[last..]);
+                        if okc && slow != x {
+                            w = "!WRAPPER:NoExpand::replace_append".into();
+                        }
+                    }
+                    "C" => {
+                        chk("replacen(closure)", re.replacen(text, limit, |_: &fancy_regex::Captures| arg.clone()));
+                        if limit == 0 {
+                            chk("replace_all(closure)", re.replace_all(text, |_: &fancy_regex::Captures| arg.clone()));
+                        }
+                    }
+                    _ => {}
+                }
+            }
             match r {
-                Ok(Cow::Borrowed(_)) => "B".into(),
-                Ok(Cow::Owned(s)) => format!("O:{}", hex(s.as_bytes())),
+                Ok(Cow::Borrowed(_)) => format!("B{}", w),
+                Ok(Cow::Owned(s)) => format!("O:{}{}", hex(s.as_bytes()), w),
                 Err(e) => format!("ERR:{}", error_kind(&e)),
             }
         }
@@ -208,7 +370,7 @@ pub fn api_line(line: &str) -> String {
         if p.is_empty() {
             continue;
         }
-        let r = catch_unwind(AssertUnwindSafe(|| probe(&re, &text, p)));
+        let r = catch_unwind(AssertUnwindSafe(|| probe(&re, &pat, f[2] == "-" && f[3] != "1", &text, p)));
         out.push(match r {
             Ok(s) => s,
             Err(_) => "PANIC".into(),
